@@ -14,6 +14,7 @@ import (
 	"github.com/nspcc-dev/neo-go/pkg/config"
 	"github.com/nspcc-dev/neo-go/pkg/core"
 	"github.com/nspcc-dev/neo-go/pkg/core/block"
+	"github.com/nspcc-dev/neo-go/pkg/core/native"
 	"github.com/nspcc-dev/neo-go/pkg/core/native/nativehashes"
 	"github.com/nspcc-dev/neo-go/pkg/core/native/nativeids"
 	"github.com/nspcc-dev/neo-go/pkg/core/native/noderoles"
@@ -30,6 +31,7 @@ import (
 	"github.com/nspcc-dev/neo-go/pkg/util"
 	"github.com/nspcc-dev/neo-go/pkg/vm/emit"
 	"github.com/nspcc-dev/neo-go/pkg/vm/opcode"
+	"github.com/nspcc-dev/neo-go/pkg/vm/stackitem"
 	"github.com/nspcc-dev/neo-go/pkg/vm/vmstate"
 	"github.com/nspcc-dev/neo-go/pkg/wallet"
 	"github.com/nspcc-dev/neo-go/verifharness/vlib/rng"
@@ -130,11 +132,11 @@ type Deployed struct {
 
 // Weights of operation kinds (see Producer.Step).
 type Weights struct {
-	GasTransfer, NeoTransfer, Vote, Candidate, Policy, Block, Role, Deploy, Run, Update, Destroy, Notary, Fault, Payment, NotaryAssisted int
+	GasTransfer, NeoTransfer, Vote, Candidate, Policy, Block, Role, Deploy, Run, Update, Destroy, Notary, Fault, Payment, NotaryAssisted, Oracle int
 }
 
 // DefaultWeights is a balanced mix.
-var DefaultWeights = Weights{GasTransfer: 10, NeoTransfer: 8, Vote: 10, Candidate: 4, Policy: 5, Block: 3, Role: 2, Deploy: 3, Run: 14, Update: 2, Destroy: 1, Notary: 4, Fault: 5, Payment: 5, NotaryAssisted: 3}
+var DefaultWeights = Weights{GasTransfer: 10, NeoTransfer: 8, Vote: 10, Candidate: 4, Policy: 5, Block: 3, Role: 2, Deploy: 3, Run: 14, Update: 2, Destroy: 1, Notary: 4, Fault: 5, Payment: 5, NotaryAssisted: 3, Oracle: 4}
 
 // ProducerConfig configures a history producer.
 type ProducerConfig struct {
@@ -177,6 +179,8 @@ type Producer struct {
 	pending                                 map[util.Uint256]func()
 	names                                   int
 	wl                                      []wlEntry
+	oracleReqs                              []oracleReq
+	OracleMaxAge                            int // answer only requests at most this many blocks old (0: 3)
 	GasH, NeoH, PolH, MgmtH, RoleH, NotaryH util.Uint160
 }
 
@@ -429,7 +433,7 @@ func (p *Producer) GenTxs() []*transaction.Transaction {
 	r := p.R
 	p.spent = map[int]int64{}
 	w := p.Cfg.W
-	ws := []int{w.GasTransfer, w.NeoTransfer, w.Vote, w.Candidate, w.Policy, w.Block, w.Role, w.Deploy, w.Run, w.Update, w.Destroy, w.Notary, w.Fault, w.Payment, w.NotaryAssisted}
+	ws := []int{w.GasTransfer, w.NeoTransfer, w.Vote, w.Candidate, w.Policy, w.Block, w.Role, w.Deploy, w.Run, w.Update, w.Destroy, w.Notary, w.Fault, w.Payment, w.NotaryAssisted, w.Oracle}
 	n := r.Intn(p.Cfg.MaxTx + 1)
 	var txs []*transaction.Transaction
 	policyUsed := false
@@ -475,6 +479,8 @@ func (p *Producer) GenTxs() []*transaction.Transaction {
 			tx = p.opPayment()
 		case 14:
 			tx = p.opNotaryAssisted()
+		case 15:
+			tx = p.opOracle()
 		}
 		if tx != nil {
 			txs = append(txs, tx)
@@ -780,6 +786,8 @@ func (p *Producer) opRole() *transaction.Transaction {
 	role := roles[p.R.Intn(len(roles))]
 	if p.R.Intn(3) == 0 {
 		role = 32 // P2PNotary: needed by notary-assisted transactions
+	} else if len(p.oracleReqs) > 0 && p.R.Intn(2) == 0 {
+		role = 8 // Oracle: needed to answer the pending requests
 	}
 	return p.Call("designate-role", p.committee(), p.RoleH, "designateAsRole", role, ks)
 }
@@ -943,6 +951,150 @@ func (p *Producer) opNotaryAssisted() *transaction.Transaction {
 	}
 	p.spent[u.Idx] += tx.SystemFee + tx.NetworkFee
 	p.TxKinds[tx.Hash()] = "notary-assisted"
+	return tx
+}
+
+// oracleReq is a pending oracle request as learnt from its OracleRequest event.
+type oracleReq struct {
+	id     uint64
+	gas    int64
+	height uint32 // block of the request transaction
+}
+
+// opOracle files an oracle request through a helper contract or, when
+// requests are pending and oracle nodes are designated with keys of this
+// harness, answers one of them with a response transaction built the way the
+// oracle service builds it (sender: the Oracle contract, which pays with the
+// GAS minted for the request; second signer: the oracle nodes' multisignature).
+func (p *Producer) opOracle() *transaction.Transaction {
+	r := p.R
+	if len(p.oracleReqs) > 0 && r.Intn(2) == 0 {
+		if tx := p.oracleResponse(); tx != nil {
+			return tx
+		}
+	}
+	if len(p.Live) == 0 {
+		return p.opDeploy()
+	}
+	u := p.freeUser()
+	if u == nil {
+		return nil
+	}
+	d := p.Live[r.Intn(len(p.Live))]
+	url := fmt.Sprintf("https://example.org/%d", r.Intn(3)) // few URLs: several ids per URL list
+	var filter any
+	if r.Intn(2) == 0 {
+		filter = []byte("$.x")
+	}
+	var data any
+	switch r.Intn(4) {
+	case 0:
+		data = []any{int64(1)}
+	case 1, 2:
+		data = []any{int64(2), p.Plan(3, true)}
+	}
+	gas := int64(1000_0000)
+	switch r.Intn(4) {
+	case 0:
+		gas = 999_9999 // below the minimum: the request faults
+	case 1:
+		gas = 1000_0000
+	default:
+		gas = 1_0000_0000 + int64(r.Intn(5000_0000))
+	}
+	tx := p.Call("oracle-request", []neotest.Signer{u.S}, d.Hash, "askOracle", url, filter, data, gas)
+	h := tx.Hash()
+	p.pending[h] = func() {
+		aer, err := p.BC.GetAppExecResults(h, trigger.Application)
+		if err != nil || len(aer) != 1 {
+			return
+		}
+		for _, e := range aer[0].Events {
+			if e.Name != "OracleRequest" || e.ScriptHash != nativehashes.OracleContract {
+				continue
+			}
+			if arr, ok := e.Item.Value().([]stackitem.Item); ok && len(arr) > 0 {
+				if id, err := arr[0].TryInteger(); err == nil {
+					p.oracleReqs = append(p.oracleReqs, oracleReq{id: id.Uint64(), gas: gas, height: p.BC.BlockHeight()})
+				}
+			}
+		}
+	}
+	return tx
+}
+
+func (p *Producer) oracleResponse() *transaction.Transaction {
+	r := p.R
+	nodes, _, err := p.BC.GetDesignatedByRole(noderoles.Oracle)
+	if err != nil || len(nodes) == 0 {
+		return nil
+	}
+	sort.Sort(nodes)
+	var accs []*wallet.Account
+	for _, n := range nodes {
+		var k *keys.PrivateKey
+		for i := 0; i < 6; i++ {
+			if c := DetKey("role", i); n.Equal(c.PublicKey()) {
+				k = c
+			}
+		}
+		if k == nil {
+			return nil
+		}
+		accs = append(accs, wallet.NewAccountFromPrivateKey(k))
+	}
+	m := smartcontract.GetDefaultHonestNodeCount(len(nodes))
+	for _, a := range accs {
+		if err := a.ConvertMultisig(m, nodes.Copy()); err != nil {
+			return nil
+		}
+	}
+	ms := neotest.NewMultiSigner(accs...)
+	// Oracle.finish loads the request's transaction, which nodes that prune or
+	// were state-synchronised no longer hold once it is older than the retained
+	// window (known finding, pinned by C20's directed scenario): requests
+	// older than OracleMaxAge blocks are left unanswered.
+	maxAge := uint32(p.OracleMaxAge)
+	if maxAge == 0 {
+		maxAge = 3
+	}
+	fresh := p.oracleReqs[:0:0]
+	for _, q := range p.oracleReqs {
+		if q.height+maxAge >= p.BC.BlockHeight()+1 {
+			fresh = append(fresh, q)
+		}
+	}
+	p.oracleReqs = fresh
+	if len(p.oracleReqs) == 0 {
+		return nil
+	}
+	i := r.Intn(len(p.oracleReqs))
+	req := p.oracleReqs[i]
+	p.oracleReqs = append(p.oracleReqs[:i:i], p.oracleReqs[i+1:]...) // a request is answered at most once
+	resp := &transaction.OracleResponse{ID: req.id, Code: transaction.Success, Result: []byte(fmt.Sprintf(`{"x":%d}`, r.Intn(1000)))}
+	switch r.Intn(5) {
+	case 0:
+		resp.Code, resp.Result = transaction.Timeout, nil
+	case 1:
+		resp.Code, resp.Result = transaction.Error, nil
+	}
+	tx := transaction.New(native.CreateOracleResponseScript(nativehashes.OracleContract), 0)
+	tx.Nonce = uint32(req.id)
+	tx.ValidUntilBlock = p.BC.BlockHeight() + 1
+	tx.Attributes = []transaction.Attribute{{Type: transaction.OracleResponseT, Value: resp}}
+	tx.Signers = []transaction.Signer{{Account: nativehashes.OracleContract, Scopes: transaction.None}, {Account: ms.ScriptHash(), Scopes: transaction.None}}
+	// The whole GAS of the request is spent: the network fee covers size and
+	// both witnesses with a margin, the rest is the system fee of the callback.
+	tx.NetworkFee = 600*p.BC.FeePerByte() + 800_0000
+	if tx.NetworkFee > req.gas {
+		tx.NetworkFee = req.gas
+	}
+	tx.SystemFee = req.gas - tx.NetworkFee
+	tx.Scripts = []transaction.Witness{{}}
+	if err := ms.SignTx(p.BC.GetConfig().Magic, tx); err != nil {
+		return nil
+	}
+	p.TxKinds[tx.Hash()] = "oracle-response"
 	return tx
 }
 
